@@ -7,8 +7,8 @@ CONSTANTS
   Contexts = {"CB", "IB"}
   Origins = {"o1", "o2", "o3", "o4", "o5", "o6"}
   IndexKeyOf <- TrIndexKeyOf
-  Anons = {"a1", "a2", "a3", "a4", "a5"}
+  Anons = {"a0", "a1", "a2", "a3", "a4", "a5"}
   ClientBlindCtx = "CB"
   IssuerBlindCtx = "IB"
-  Enforce = {"id-stable-and-injective", "id-is-hkdf-reference", "issuer-key-is-reference", "unknown-event"}
+  Enforce = {"id-stable-and-injective", "returned-ids-keep-their-value", "id-is-hkdf-reference", "issuer-key-is-reference", "unknown-event"}
 CHECK_DEADLOCK FALSE
